@@ -411,8 +411,8 @@ def rule_tol(ctx):
             last_assigned = st_.targets[0].id
     lat_src = None
     for st_ in after:
-        if isinstance(st_, ast.Assign) and calls_in(st_.value, "rad2deg"):
-            lat_src = [n_.id for n_ in ast.walk(st_.value) if isinstance(n_, ast.Name) and n_.id in assigned_in]
+        if isinstance(st_, (ast.Assign, ast.Return)) and st_.value is not None and calls_in(st_.value, "rad2deg"):
+            lat_src = [n_.id for c_ in calls_in(st_.value, "rad2deg") for n_ in ast.walk(c_) if isinstance(n_, ast.Name) and n_.id in assigned_in]
     if last_assigned is None or lat_src is None:
         raise AnalysisError("cart2geodetic: the latitude returned after the iteration was not found")
     ctx.ob("cart2geodetic.iteration.result", lat_src == [last_assigned], "latitude returned from %s; newest iterate is %s" % (lat_src, last_assigned),
